@@ -12,6 +12,8 @@
  */
 
 #include "cppStructType.h"
+
+#include <set>
 #include "cppTypedefType.h"
 #include "cppReferenceType.h"
 #include "cppScope.h"
@@ -23,6 +25,36 @@
 #include "cppTBDType.h"
 #include "indent.h"
 #include "cppParser.h"
+
+/**
+ * Used by the member-wise type trait queries below to notice that they have
+ * been asked about a class they are already in the middle of examining.  That
+ * happens when a class (illegally) contains itself, directly or through the
+ * members of other classes; without this the queries recurse until the stack
+ * overflows.
+ */
+class TraitRecursionGuard {
+public:
+  TraitRecursionGuard(std::set<const CPPStructType *> &active,
+                      const CPPStructType *type) :
+    _active(active),
+    _type(type),
+    _entered(active.insert(type).second) {
+  }
+  ~TraitRecursionGuard() {
+    if (_entered) {
+      _active.erase(_type);
+    }
+  }
+  bool reentered() const {
+    return !_entered;
+  }
+
+private:
+  std::set<const CPPStructType *> &_active;
+  const CPPStructType *_type;
+  bool _entered;
+};
 
 /**
  *
@@ -206,6 +238,12 @@ is_polymorphic() const {
  */
 bool CPPStructType::
 is_standard_layout() const {
+  static std::set<const CPPStructType *> active;
+  TraitRecursionGuard guard(active, this);
+  if (guard.reentered()) {
+    return false;
+  }
+
   assert(_scope != nullptr);
 
   CPPVisibility member_vis = V_unknown;
@@ -270,6 +308,12 @@ is_standard_layout() const {
  */
 bool CPPStructType::
 is_trivial() const {
+  static std::set<const CPPStructType *> active;
+  TraitRecursionGuard guard(active, this);
+  if (guard.reentered()) {
+    return false;
+  }
+
   // Make sure all base classes are trivial and non-virtual.
   Derivation::const_iterator di;
   for (di = _derivation.begin(); di != _derivation.end(); ++di) {
@@ -360,6 +404,12 @@ is_trivial() const {
  */
 bool CPPStructType::
 is_trivially_copyable() const {
+  static std::set<const CPPStructType *> active;
+  TraitRecursionGuard guard(active, this);
+  if (guard.reentered()) {
+    return false;
+  }
+
   // Make sure all base classes are trivially copyable and non-virtual.
   Derivation::const_iterator di;
   for (di = _derivation.begin(); di != _derivation.end(); ++di) {
@@ -529,6 +579,12 @@ is_destructible() const {
  */
 bool CPPStructType::
 is_default_constructible(CPPVisibility min_vis) const {
+  static std::set<const CPPStructType *> active;
+  TraitRecursionGuard guard(active, this);
+  if (guard.reentered()) {
+    return false;
+  }
+
   if (is_abstract()) {
     return false;
   }
@@ -595,6 +651,12 @@ is_default_constructible(CPPVisibility min_vis) const {
  */
 bool CPPStructType::
 is_copy_constructible(CPPVisibility min_vis) const {
+  static std::set<const CPPStructType *> active;
+  TraitRecursionGuard guard(active, this);
+  if (guard.reentered()) {
+    return false;
+  }
+
   if (is_abstract()) {
     return false;
   }
@@ -700,6 +762,12 @@ is_move_constructible(CPPVisibility min_vis) const {
  */
 bool CPPStructType::
 is_copy_assignable(CPPVisibility min_vis) const {
+  static std::set<const CPPStructType *> active;
+  TraitRecursionGuard guard(active, this);
+  if (guard.reentered()) {
+    return false;
+  }
+
   CPPInstance *assignment_operator = get_copy_assignment_operator();
   if (assignment_operator != nullptr) {
     // It has a copy assignment operator.
@@ -790,6 +858,12 @@ is_move_assignable(CPPVisibility min_vis) const {
  */
 bool CPPStructType::
 is_destructible(CPPVisibility min_vis) const {
+  static std::set<const CPPStructType *> active;
+  TraitRecursionGuard guard(active, this);
+  if (guard.reentered()) {
+    return false;
+  }
+
   // Do we have an explicit destructor?
   CPPInstance *destructor = get_destructor();
   if (destructor != nullptr) {
